@@ -367,7 +367,7 @@ Proof.
     assert (HGr : Forall good_write (rev ws)) by (apply Forall_rev; exact HG).
     pose proof (gsum_le lvl n _ _ qa qb Hq HGr Hwf Hn) as Hle.
     pose proof (WR_mono (rev ws) (Z.max (sn_time n) qa) (Z.min (sn_time n + pow10 lvl) qb) qa qb HGr ltac:(lia) ltac:(lia)).
-    rewrite WR_rev in *. lia.
+    rewrite !WR_rev in *. lia.
   - cbn. apply WR_nonneg. exact HG.
 Qed.
 
@@ -396,4 +396,184 @@ Proof.
   unfold s_get. destruct (s_root (fst (run_writes ws))) as [[lvl n]|]; [|cbn; lia].
   destruct G as (Hwf & Hn & _ & _). rewrite !read_sum_gsum by (assumption || lia).
   eapply gsum_split; eauto.
+Qed.
+
+(* ---------- exactness on sub-ranges for histories of short writes (for C01) ---------- *)
+Lemma swr_eq H l qa qb : Forall good_write H -> forall ch t0, slots (wf l) (pow10 l) t0 ch ->
+  sumZ (map (oW H l) ch) = WR H t0 (t0 + Z.of_nat (length ch) * pow10 l) ->
+  swr H (pow10 l) qa qb t0 ch = WR H (Z.max t0 qa) (Z.min (t0 + Z.of_nat (length ch) * pow10 l) qb).
+Proof.
+  intros HH. pose proof (pow10_pos l) as Hp. induction ch as [|o ch IH]; intros t0 Hs Hsum.
+  - cbn [swr length]. symmetry. apply WR_empty. lia.
+  - cbn [slots map length swr] in *. rewrite sumZ_cons in Hsum. destruct Hs as [Ho Hr].
+    set (L := Z.of_nat (length ch) * pow10 l) in *. assert (HL : 0 <= L) by (unfold L; nia).
+    replace (t0 + Z.of_nat (S (length ch)) * pow10 l) with (t0 + pow10 l + L) in * by (unfold L; lia).
+    pose proof (WR_split H t0 (pow10 l) L t0 (t0 + pow10 l + L) ltac:(lia) HL) as Hsp.
+    replace (Z.max t0 t0) with t0 in Hsp by lia.
+    replace (Z.min (t0 + pow10 l) (t0 + pow10 l + L)) with (t0 + pow10 l) in Hsp by lia.
+    replace (Z.max (t0 + pow10 l) t0) with (t0 + pow10 l) in Hsp by lia.
+    replace (Z.min (t0 + pow10 l + L) (t0 + pow10 l + L)) with (t0 + pow10 l + L) in Hsp by lia.
+    pose proof (oW_sum_le H l HH ch (t0 + pow10 l) Hr) as Htail. fold L in Htail.
+    pose proof (WR_nonneg H t0 (t0 + pow10 l) HH) as Hn0.
+    assert (Hhead : oW H l o <= WR H t0 (t0 + pow10 l)).
+    { destruct o as [c|]; cbn [oW]; [|exact Hn0]. destruct Ho as [Ht _]. rewrite W_WR, Ht. lia. }
+    assert (Heq1 : oW H l o = WR H t0 (t0 + pow10 l)) by lia.
+    assert (Heq2 : sumZ (map (oW H l) ch) = WR H (t0 + pow10 l) (t0 + pow10 l + L)) by lia.
+    rewrite (IH _ Hr Heq2). fold L.
+    rewrite <- (WR_split H t0 (pow10 l) L qa qb ltac:(lia) HL). f_equal.
+    destruct o as [c|]; [reflexivity|]. cbn [oW] in Heq1.
+    pose proof (WR_mono H (Z.max t0 qa) (Z.min (t0 + pow10 l) qb) t0 (t0 + pow10 l) HH ltac:(lia) ltac:(lia)).
+    pose proof (WR_nonneg H (Z.max t0 qa) (Z.min (t0 + pow10 l) qb) HH). lia.
+Qed.
+
+Definition short_writes (H : list write) : Prop := Forall (fun w => w_b w - w_a w < 10) H.
+
+Lemma gsum_exact : forall lvl n E H qa qb, qa < qb -> Forall good_write H -> short_writes H ->
+  wf lvl n -> ninv E H lvl n -> content E lvl n = W H lvl (sn_time n) ->
+  gsum E lvl qa qb n = WR H (Z.max (sn_time n) qa) (Z.min (sn_time n + pow10 lvl) qb).
+Proof.
+  induction lvl as [|l IH]; intros [t p s w ch] E H qa qb Hq HH Hshort Hwf Hn Hex; cbn [gsum sn_time] in *.
+  - change (pow10 0) with 1 in *. pose proof (rel_spec t (t + 1) qa qb ltac:(lia) Hq) as Hr.
+    pose proof (rel_unit t qa qb Hq) as Hu. cbn [content] in Hex. rewrite W_WR in Hex. change (pow10 0) with 1 in Hex.
+    destruct p; cbn [andb];
+      destruct (relationship t (t + 1) qa qb); cbn [covers is_outside]; try contradiction;
+      try (replace (Z.max t qa) with t by lia; replace (Z.min (t + 1) qb) with (t + 1) by lia; lia);
+      try (symmetry; apply WR_empty; lia).
+  - pose proof (pow10_pos (S l)) as HpS. pose proof (pow10_pos l) as Hp.
+    pose proof (rel_spec t (t + pow10 (S l)) qa qb ltac:(lia) Hq) as Hr.
+    destruct Hwf as [Hm [Hlen Hs]]. pose proof Hn as (N1 & N2 & N3 & N4).
+    destruct (p && covers _) eqn:E1.
+    { apply andb_prop in E1. destruct E1 as [Ep Ec]. subst p. cbn [content] in Hex. rewrite Hex, W_WR.
+      destruct (relationship t (t + pow10 (S l)) qa qb); cbn in Ec; try discriminate;
+        (replace (Z.max t qa) with t by lia; replace (Z.min (t + pow10 (S l)) qb) with (t + pow10 (S l)) by lia; reflexivity). }
+    destruct (is_outside _) eqn:E2.
+    { symmetry. apply WR_empty.
+      destruct (relationship t (t + pow10 (S l)) qa qb); cbn in E2; try discriminate. lia. }
+    assert (Hsub : osum E l ch = W H (S l) t).
+    { rewrite content_unfold in Hex. destruct p; [|exact Hex].
+      rewrite <- Hex. apply N3; [reflexivity|].
+      intros [w0 [Hw0 Hc]]. unfold short_writes in Hshort. rewrite Forall_forall in Hshort. specialize (Hshort w0 Hw0).
+      rewrite pow10_S in Hc. lia. }
+    destruct (children_exact E H l t ch HH Hs Hlen N4 Hsub) as [Hce HsumW].
+    fold (ogsum E l qa qb).
+    assert (Hsw : sumZ (map (ogsum E l qa qb) ch) = swr H (pow10 l) qa qb t ch).
+    { clear Hsub HsumW Hlen Hm E1 E2 Hr N1 N2 N3 Hex Hn. revert t Hs.
+      induction ch as [|o ch IHc]; intros t0 Hs; [reflexivity|].
+      cbn [map swr slots] in *. rewrite sumZ_cons. destruct Hs as [Ho Hr0]. inversion N4; subst.
+      rewrite (IHc H3 (fun c Hc => Hce c (or_intror Hc)) _ Hr0). f_equal.
+      destruct o as [c|]; cbn [ogsum]; [|reflexivity]. destruct Ho as [Ht Hw].
+      rewrite (IH c E H qa qb Hq HH Hshort Hw H2 (Hce c (or_introl eq_refl))). rewrite Ht. reflexivity. }
+    rewrite Hsw. rewrite W_WR in HsumW.
+    pose proof (swr_eq H l qa qb HH ch t Hs) as Hse. rewrite Hlen in Hse.
+    replace (t + Z.of_nat 10 * pow10 l) with (t + pow10 (S l)) in Hse by (rewrite pow10_S; lia).
+    apply Hse. exact HsumW.
+Qed.
+
+(* the corollary C01 needs: for a history of writes of 1..9 slots inside one epoch block, every aligned
+   range reads exactly what was written into it, and every get callback has ratio 1/1 *)
+Theorem seg_read_exact K ws qa qb : Forall (valid_write K) ws -> qa < qb ->
+  Forall (fun w => w_b w - w_a w < 10) ws ->
+  read_sum (snd (run_writes ws)) (s_get qa qb (fst (run_writes ws))) =
+    sumZ (map (fun w => w_beta w * ov (w_a w) (w_b w) qa qb) ws) /\
+  Forall (fun c => gc_m c = 1 /\ gc_d c = 1) (s_get qa qb (fst (run_writes ws))).
+Proof.
+  intros Hv Hq Hshort. split.
+  - pose proof (run_root K ws Hv) as G. pose proof (valid_good K ws Hv) as HG.
+    assert (Hflip : WR ws qa qb = sumZ (map (fun w => w_beta w * ov (w_a w) (w_b w) qa qb) ws)).
+    { unfold WR. f_equal. apply map_ext. intros w. unfold ov. rewrite Z.mul_comm. f_equal. lia. }
+    unfold s_get. destruct (s_root (fst (run_writes ws))) as [[lvl n]|].
+    + destruct G as (Hwf & Hn & Hroot & Hh). rewrite read_sum_gsum by assumption.
+      assert (HGr : Forall good_write (rev ws)) by (apply Forall_rev; exact HG).
+      assert (Hsr : short_writes (rev ws)) by (apply Forall_rev; exact Hshort).
+      rewrite (gsum_exact lvl n _ _ qa qb Hq HGr Hsr Hwf Hn Hroot). rewrite <- Hflip, <- (WR_rev ws qa qb).
+      (* all writes lie inside the root bucket, so cutting the range by it loses nothing *)
+      unfold WR. f_equal. apply map_ext_Forall. eapply Forall_impl; [|exact Hh].
+      intros w ((G1 & G2) & G3 & G4). unfold ov. f_equal. lia.
+    + subst ws. reflexivity.
+  - pose proof (get_sound K ws qa qb Hv Hq) as [_ G]. cbv zeta in G.
+    eapply Forall_impl; [|exact G]. intros c (_ & _ & H3 & H4 & _). auto.
+Qed.
+
+(* ---------- per write: tag one write of the history with amount 1 per slot, all others with 0 ---------- *)
+Definition set_beta (v : Z) (w : write) : write :=
+  {| w_a := w_a w; w_b := w_b w; w_smp := w_smp w; w_beta := v |}.
+Fixpoint tag (k : nat) (ws : list write) : list write :=
+  match ws with
+  | [] => []
+  | w :: ws' => match k with
+                | O => set_beta 1 w :: map (set_beta 0) ws'
+                | S k' => set_beta 0 w :: tag k' ws'
+                end
+  end.
+
+Lemma WR_zero ws lo hi : WR (map (set_beta 0) ws) lo hi = 0.
+Proof. induction ws as [|w ws IH]; [reflexivity|]. unfold WR in *. cbn [map]. rewrite sumZ_cons, IH. cbn. lia. Qed.
+
+Lemma WR_tag lo hi : forall ws k,
+  WR (tag k ws) lo hi = match nth_error ws k with Some w => ov lo hi (w_a w) (w_b w) | None => 0 end.
+Proof.
+  induction ws as [|w ws IH]; intros k; [destruct k; reflexivity|].
+  destruct k as [|k]; cbn [tag nth_error].
+  - unfold WR. cbn [map]. rewrite sumZ_cons. fold (WR (map (set_beta 0) ws) lo hi). rewrite WR_zero. cbn. lia.
+  - unfold WR. cbn [map]. rewrite sumZ_cons. fold (WR (tag k ws) lo hi). rewrite IH. cbn. lia.
+Qed.
+
+Definition in_block_w (K : Z) (w : write) : Prop := valid_range K (w_a w) (w_b w).
+
+Lemma valid_tag K : forall ws k, Forall (in_block_w K) ws -> Forall (valid_write K) (tag k ws).
+Proof.
+  induction ws as [|w ws IH]; intros k Hv; [destruct k; constructor|]. inversion Hv; subst.
+  destruct k; cbn [tag]; constructor.
+  - split; [exact H1|cbn; lia].
+  - clear -H2. induction H2; cbn; constructor; auto. split; [exact H|cbn; lia].
+  - split; [exact H1|cbn; lia].
+  - apply IH. exact H2.
+Qed.
+
+Lemma seg_after_ext ws ws' : Forall2 (fun w w' => w_a w = w_a w' /\ w_b w = w_b w' /\ w_smp w = w_smp w') ws ws' ->
+  forall s, seg_after ws s = seg_after ws' s.
+Proof.
+  induction 1 as [|w w' ws ws' (H1 & H2 & H3) _ IH]; intros s; [reflexivity|].
+  cbn. rewrite H1, H2, H3. apply IH.
+Qed.
+
+Lemma tag_same_shape : forall ws k,
+  Forall2 (fun w w' => w_a w = w_a w' /\ w_b w = w_b w' /\ w_smp w = w_smp w') (tag k ws) ws.
+Proof.
+  induction ws as [|w ws IH]; intros k; [destruct k; constructor|].
+  destruct k; cbn [tag]; constructor; cbn; auto.
+  clear. induction ws; cbn; constructor; cbn; auto.
+Qed.
+
+Lemma seg_tag ws k : fst (run_writes (tag k ws)) = fst (run_writes ws).
+Proof. unfold run_writes. rewrite !run_fst. apply seg_after_ext. apply tag_same_shape. Qed.
+
+Lemma ov_comm t1 t2 a b : ov t1 t2 a b = ov a b t1 t2.
+Proof. unfold ov. lia. Qed.
+
+Theorem no_more_per_write K ws k w qa qb : Forall (in_block_w K) ws -> nth_error ws k = Some w -> qa < qb ->
+  read_sum (snd (run_writes (tag k ws))) (s_get qa qb (fst (run_writes ws))) <= ov (w_a w) (w_b w) qa qb.
+Proof.
+  intros Hv Hk Hq. pose proof (no_more K (tag k ws) qa qb (valid_tag K ws k Hv) Hq) as G.
+  rewrite seg_tag, WR_tag, Hk, ov_comm in G. exact G.
+Qed.
+
+Theorem total_per_write K ws k w qa qb : Forall (in_block_w K) ws -> nth_error ws k = Some w -> qa < qb ->
+  Forall (fun w => qa <= w_a w /\ w_b w <= qb) ws ->
+  read_sum (snd (run_writes (tag k ws))) (s_get qa qb (fst (run_writes ws))) = w_b w - w_a w.
+Proof.
+  intros Hv Hk Hq Hin.
+  assert (Hin' : Forall (fun w => qa <= w_a w /\ w_b w <= qb) (tag k ws)).
+  { pose proof (tag_same_shape ws k) as F. clear -F Hin. revert Hin. induction F as [|x y l l' (H1 & H2 & _) _ IH]; intros Hin; [constructor|].
+    inversion Hin; subst. constructor; [lia|auto]. }
+  pose proof (total K (tag k ws) qa qb (valid_tag K ws k Hv) Hq Hin') as G.
+  rewrite seg_tag in G. rewrite G.
+  assert (Hw : sumZ (map (fun w0 => (w_b w0 - w_a w0) * w_beta w0) (tag k ws)) = WR (tag k ws) qa qb).
+  { unfold WR. f_equal. apply map_ext_in. intros w0 Hw0.
+    pose proof (valid_tag K ws k Hv) as Vt. rewrite Forall_forall in Vt, Hin'.
+    specialize (Vt w0 Hw0). specialize (Hin' w0 Hw0). destruct Vt as [[V1 _] _].
+    f_equal. unfold ov. lia. }
+  rewrite Hw, WR_tag, Hk. unfold ov.
+  rewrite Forall_forall in Hv, Hin. pose proof (nth_error_In _ _ Hk) as Hi.
+  specialize (Hv w Hi). specialize (Hin w Hi). destruct Hv as (V1 & _). lia.
 Qed.
